@@ -725,6 +725,10 @@ class Evaluator:
                 return list(args[0]) if f.id == "list" else tuple(args[0])
             if f.id == "str" and len(args) == 1 and isinstance(args[0], (str, AStr)):
                 return args[0]
+            if f.id == "str" and len(args) == 1 and isinstance(args[0], (int, float, bool)) or (f.id == "str" and len(args) == 1 and args[0] is None):
+                return str(args[0])
+            if f.id in ("tuple", "list") and len(args) == 1 and isinstance(args[0], (list, tuple)):
+                return tuple(args[0]) if f.id == "tuple" else list(args[0])
             if f.id == "bool" and len(args) == 1:
                 return self.truth(args[0])
             if f.id in ("list", "dict", "tuple", "set") and not args and not e.keywords:
